@@ -183,6 +183,20 @@ PROPS = {
         explanation="C15 (writer/printer clauses): C15_compact_none, C15_only_comment_ops_differ, C15_comments_verbatim, C15_content_inert.",
         open_statements=["C15_comments_kept (position of every comment after re-lexing the pretty output)", "C15_blank_lines"],
     ),
+    "C01": dict(
+        design_ref="DESIGN.md 4 (C01), 4.1",
+        level_text="Coq theorems, for every program of the subset grammar (Grammar.v) and EVERY output configuration (compact; pretty with any blank indent unit, with or without semicolons; with or without source map): lexing spells every keyword/operator/punctuation token canonically; the parser returns exactly the ECMAScript tree of the token sequence without error (C02); compiling it never panics; and the code, with layout bytes (blank, tab, line breaks, ';') removed, is byte for byte the source's token texts in source order - no token is dropped, added, reordered or respelled except the quotes of string literals, whose value is preserved (C07). Together with the text-level round trip (C03) this is the reason the output behaves like the source: a JavaScript engine sees the same token sequence up to layout and statement terminators. Executing source and output is not expressible in the model (no JavaScript semantics can be installed); it is explored by the oracle with node 20 on generated terminating programs in every configuration.",
+        level_note="Partial by construction: the theorems stop at the token sequence of the output (and at the tree for expression statements, C03b); that equal token sequences with JavaScript's own semicolon insertion behave equally is the semantics of JavaScript, not modelled. Pretty configurations are covered for comment-free trees (comments are C15). Trusted: Coq kernel, translator xjs2v (tables, predicates, WriteTo bodies), extraction, harness/driver correspondence (lex, parse, print, writer suites), Grammar.v and TokenSpec.v as specification. Recorded findings KF1, KF2 (semicolons off), KF3 (pretty trims inside backtick literals), KF9, KF16 are reported by the oracle.",
+        technique="Coq proof (induction over the grammar's matchers against the generated printer; writer invariant over operation lists) + model/implementation correspondence",
+        suites=[dict(suite="lex", n_quick=3000, n_thorough=100000, what="byte strings: all token fields", projection=POS_FREE),
+                dict(suite="parse", n_quick=2000, n_thorough=50000, what="sources x modes: tree, errors", projection=POS_FREE),
+                dict(suite="print", n_quick=2000, n_thorough=50000, what="trees x compiler configurations: code", projection=CODE_ONLY),
+                dict(suite="writer", n_quick=2000, n_thorough=50000, what="random histories of the exported CodeWriter methods: buffer, indent level")],
+        oracle_n_quick=120, oracle_n_thorough=4000, oracle_n_search=600,
+        explanation="C01: C01_tokens_preserved, C01_lexer_canonical, C01_code_tokens, C01_source_to_code.",
+        open_statements=["C01_behaviour (same printed values and completion in a JavaScript engine): not expressible without a JavaScript semantics; explored by the oracle with node 20"],
+        assumptions=["layout bytes inside string literals are compared modulo layout by the token theorem; their exact bytes are C07_string_printed / C07_backtick"],
+    ),
     "C02": dict(
         design_ref="DESIGN.md 4 (C02)",
         level_text="Coq theorem: COMPLETENESS of the Pratt parser model w.r.t. an executable token-level specification of the subset as ECMA-262 parses it (Grammar.v: expression levels, left-associative binary operators, right-associative assignment with simple targets, restricted productions after return and before postfix ++/--, automatic semicolon insertion, else bound to the nearest if): for EVERY (tree, token list) pair of the grammar the default parser returns exactly that tree - every stored token included - with no error; the grammar is unambiguous. The statement sees tokens only through type, literal, after-newline flag and identity, so the tree is a function of the token sequence. The specification is validated against node 20 on generated programs (every program the reference unparser renders is accepted by node and is in the grammar) and rejects every known case where xjs accepts invalid JavaScript.",
